@@ -37,3 +37,10 @@ claim("C12", "property-based round-trip testing of multi-document streams at thr
       "collections, directives) x dump options x both dumpers x both loaders at value, node and event level; oracle: exactly n documents come back, each equal to its input, and the text "
       "for the first k documents is a prefix of the text for all n (modulo the '...' STREAM-END adds after an open-ended last document).",
       "Trusted: Hypothesis, vlib/compare.py, the node equality in checks/c12.py, the event equivalence of C05. Two libyaml-emitter known findings are excluded by case predicates.")
+claim("C15", "property-based testing with validity predicates over the raw dump output, incl. an independent recursive-descent parser of the canonical form (Hypothesis)",
+      "Generated search: value graphs / node graphs / event streams x full option product (incl. out-of-range indent, invalid line_break, all encodings, stream or return value) x both dumpers; "
+      "oracle = one predicate per clause of the property over the raw output: own scanner accepts it; ASCII-only without allow_unicode; every CR/LF break is the effective line_break; "
+      "str/bytes/BOM per encoding; per-document '---' / '...' / %YAML / %TAG token counts; block-entry indentation a multiple of the effective indent; canonical output accepted by "
+      "vlib/canonical_ref.py with the same events as the library's parse (and the input events).",
+      "Trusted: vlib/canonical_ref.py (written from the canonical grammar, shares nothing with the library or tests/canonical.py), the pure-Python scanner for token kinds/columns used by "
+      "the directive and indentation predicates (its positions are checked independently by C09). One libyaml known finding excluded by a case predicate.")
